@@ -439,7 +439,7 @@ def render_corr(ctx, all_res):
         ctx.correspondence(name, len(cs), len(bad), "; ".join(cs[i][1] for i in bad[:6]))
         if bad:
             ctx.not_shown("correspondence type_name model", "model and implementation render differently: " + "; ".join(f"{cs[i][1]!r} <- {cs[i][0][:200]}" for i in bad[:5]))
-    ctx.correspondence("the rendering occurs verbatim (or through clean_id) in the MissingField path of the generated from_dict of every required field",
+    ctx.correspondence("the rendering occurs verbatim (or through clean_id) in the MissingField path of the generated from_dict of every required field, and as the factory of every DefaultDict field",
                        checked, len(missing), "; ".join(missing[:6]))
     ctx.obligation("generated error paths contain the modelled rendering of the field type", not missing, "; ".join(missing[:6]))
     if missing:
